@@ -182,6 +182,7 @@ def check_C17(tier, seed):
         lines = [c.line() for c in cases]
         impl = common.run_harness("mac", lines, shards=common.NCPU)
         model = common.run_model("mac", [c.line(ftext) for c in cases])
+        common.kernel_crosscheck(rep, "mac", [c.line(ftext) for c in cases], 150 if thorough else 50)
     except common.CheckFailure as e:
         rep.violation_noinput("correspondence run failed", {"error": str(e)})
         return rep.finish()
